@@ -6,11 +6,13 @@
 package main
 
 import (
+	"os"
 	"runtime"
 	"strconv"
 	"strings"
 	"sync"
 	"sync/atomic"
+	"time"
 
 	rchord "go.miragespace.co/specter/chord"
 	"go.miragespace.co/specter/spec/chord"
@@ -26,6 +28,25 @@ func hist(ns *rchord.VerifNodeState) string {
 		xs[i] = u(uint64(s))
 	}
 	return hlib.Join(xs, ",")
+}
+
+// guarded runs f; false when f has not returned within 5 s (a spinning Set: the goroutine cannot be
+// killed, so the caller reports `hang`, flushes and exits).
+func guarded(f func()) bool {
+	done := make(chan struct{})
+	go func() { defer close(done); f() }()
+	select {
+	case <-done:
+		return true
+	case <-time.After(5 * time.Second):
+		return false
+	}
+}
+
+func bail(r *hlib.Run) {
+	r.Count("hang")
+	r.Finish()
+	os.Exit(0)
 }
 
 type op struct {
@@ -49,7 +70,7 @@ func (o op) rhs() string {
 }
 
 // runRound releases all ops at once on ns and returns mid-round observations.
-func runRound(ns *rchord.VerifNodeState, ops []op, observe bool) []string {
+func runRound(ns *rchord.VerifNodeState, ops []op, observe bool) ([]string, bool) {
 	var start atomic.Bool
 	var wg sync.WaitGroup
 	var running atomic.Int32
@@ -64,6 +85,7 @@ func runRound(ns *rchord.VerifNodeState, ops []op, observe bool) []string {
 			}()
 			running.Add(1)
 			for !start.Load() {
+				runtime.Gosched()
 			}
 			if o.set {
 				ns.Set(chord.State(o.nxt))
@@ -80,6 +102,7 @@ func runRound(ns *rchord.VerifNodeState, ops []op, observe bool) []string {
 		go func() {
 			defer owg.Done()
 			for !start.Load() {
+				runtime.Gosched()
 			}
 			for k := 0; k < 3; k++ {
 				// history first, then the word: every entry seen must be at an index <= the later word's index
@@ -101,13 +124,23 @@ func runRound(ns *rchord.VerifNodeState, ops []op, observe bool) []string {
 		runtime.Gosched()
 	}
 	start.Store(true)
-	wg.Wait()
+	if !guarded(wg.Wait) {
+		return nil, false
+	}
 	owg.Wait()
-	return obs
+	return obs, true
 }
 
 func emitRound(r *hlib.Run, ns *rchord.VerifNodeState, ops []op, observe bool) {
-	obs := runRound(ns, ops, observe)
+	obs, fin := runRound(ns, ops, observe)
+	if !fin {
+		l := make([]string, len(ops))
+		for i, o := range ops {
+			l[i] = o.lhs()
+		}
+		r.Emit("round "+strings.Join(l, " "), "hang")
+		bail(r)
+	}
 	l := make([]string, len(ops))
 	rs := make([]string, len(ops))
 	wins := 0
@@ -147,7 +180,10 @@ func main() {
 				g, ok := ns.Transition(chord.State(p(t[1])), chord.State(p(t[2])))
 				r.Emit("tr "+t[1]+" "+t[2], u(uint64(g))+" "+hlib.B(ok)+" "+u(ns.Word())+" "+hist(ns))
 			case "set":
-				ns.Set(chord.State(p(t[1])))
+				if !guarded(func() { ns.Set(chord.State(p(t[1]))) }) {
+					r.Emit("set "+t[1], "hang")
+					bail(r)
+				}
 				r.Emit("set "+t[1], u(ns.Word())+" "+hist(ns))
 			case "get":
 				r.Emit("get", u(uint64(ns.Get())))
@@ -198,7 +234,10 @@ func main() {
 				}
 			case x < 8:
 				v := st()
-				ns.Set(chord.State(v))
+				if !guarded(func() { ns.Set(chord.State(v)) }) {
+					r.Emit("set "+u(v), "hang")
+					bail(r)
+				}
 				cur = v
 				r.Emit("set "+u(v), u(ns.Word())+" "+hist(ns))
 				r.Case("")
